@@ -67,6 +67,10 @@ def campaign(ctx, modname, seed, idx, runs, corpus, decode, max_len=64, timeout=
 
 def child(argv):
     modname, out = argv[1], argv[2]
+    hyp_part = None
+    if ":" in modname:
+        # "<module>:<hyp part>": coverage-guided generation of that part's STRUCTURED cases (Hypothesis strategy driven by libFuzzer bytes)
+        modname, hyp_part = modname.split(":", 1)
     import atheris
     from . import core
     with atheris.instrument_imports(include=["localcider"]):
@@ -75,6 +79,8 @@ def child(argv):
         import localcider.backend.seqfileparser  # noqa
     mod = __import__("vlc.props." + modname, fromlist=["x"])
     stats = dict(evaluations=0, nontrivial=set(), classes={}, samples=[])
+    if hyp_part:
+        return child_hyp(argv, mod, hyp_part, out, stats)
 
     def dump():
         with open(os.path.join(out, "stats.json.tmp"), "w") as f:
@@ -108,6 +114,47 @@ def child(argv):
     dump()
     atheris.Setup([argv[0]] + argv[3:], one)
     atheris.Fuzz()
+
+
+def child_hyp(argv, mod, partname, out, stats):
+    import contextlib
+    import atheris
+    from hypothesis import given, settings, HealthCheck
+    from . import core
+    part = [p for p in mod.parts("thorough") if p.name == partname][0]
+    ctx = core.Ctx(mod.PROPERTY, "atheris-" + partname, "thorough", 0)
+    n = [0]
+
+    def dump():
+        with open(os.path.join(out, "stats.json.tmp"), "w") as f:
+            json.dump(dict(evaluations=ctx.evaluations, nontrivial=sorted(ctx.nontrivial)[:200000], classes=dict(ctx.classes), samples=ctx.nt_samples[:4]), f)
+        os.replace(os.path.join(out, "stats.json.tmp"), os.path.join(out, "stats.json"))
+
+    @settings(deadline=None, database=None, suppress_health_check=list(HealthCheck))
+    @given(part.strategy("thorough"))
+    def body(case):
+        try:
+            with contextlib.redirect_stdout(core._SINK):
+                core.guarded(ctx, part.check, case)
+        except core.Violation as v:
+            with open(os.path.join(out, "violation.json"), "w") as f:
+                json.dump(dict(bucket=v.bucket, message=v.message, case=v.case if v.case is not None else core.jsonable(case)), f)
+            dump()
+            raise
+        except core.Inconclusive:
+            pass
+        n[0] += 1
+        if n[0] % 500 == 0:
+            dump()
+
+    dump()
+    atheris.Setup([argv[0]] + argv[3:], body.hypothesis.fuzz_one_input)
+    atheris.Fuzz()
+
+
+def hyp_campaign(ctx, modname, partname, seed, idx, runs, max_len=512):
+    """Coverage-guided search over a hyp part's structured cases (thorough tier only)."""
+    campaign(ctx, "%s:%s" % (modname, partname), seed, idx, runs=runs, corpus=[], decode=None, max_len=max_len)
 
 
 if __name__ == "__main__":
